@@ -123,6 +123,10 @@ impl Iterator for AnsiElementIterator<'_> {
 impl anstyle_parse::Perform for Performer {
     fn csi_dispatch(&mut self, params: &Params, intermediates: &[u8], ignore: bool, byte: u8) {
         if ignore || intermediates.len() > 1 {
+            // Still a control sequence, not text: it must be emitted as an element, otherwise
+            // its bytes are attributed to the neighbouring text elements, whose ranges then
+            // no longer match the text (and may end inside a multi-byte character).
+            self.element = Some(Element::Csi(0, 0));
             return;
         }
 
